@@ -1274,6 +1274,7 @@ reply_parse(struct evdns_base *base, u8 *packet, int length)
 	int name_matches = 0;
 
 	u16 trans_id, questions, answers, authority, additional, datalength;
+	u16 qtype, qclass;
 	u16 flags = 0;
 	u32 ttl, ttl_r = 0xffffffff;
 	struct reply reply;
@@ -1299,6 +1300,7 @@ reply_parse(struct evdns_base *base, u8 *packet, int length)
 
 	/* If it's not an answer, it doesn't correspond to any request. */
 	if (!(flags & _QR_MASK)) return -1;  /* must be an answer */
+	if (flags & _OP_MASK) return -1;  /* must answer a standard query */
 	if ((flags & (_RCODE_MASK|_TC_MASK)) && (flags & (_RCODE_MASK|_TC_MASK)) != DNS_ERR_NOTEXIST) {
 		/* there was an error and it's not NXDOMAIN */
 		goto err;
@@ -1328,6 +1330,11 @@ reply_parse(struct evdns_base *base, u8 *packet, int length)
 		if (name_parse(req->request, req->request_len, &k,
 			cmp_name, sizeof(cmp_name))<0)
 			goto err;
+		GET16(qtype);
+		GET16(qclass);
+		/* the echoed question must be the one we asked */
+		if (qtype != req->request_type || qclass != CLASS_INET)
+			continue;
 		if (!base->global_randomize_case) {
 			if (strcmp(tmp_name, cmp_name) == 0)
 				name_matches = 1;
@@ -1335,10 +1342,6 @@ reply_parse(struct evdns_base *base, u8 *packet, int length)
 			if (evutil_ascii_strcasecmp(tmp_name, cmp_name) == 0)
 				name_matches = 1;
 		}
-
-		j += 4;
-		if (j > length)
-			goto err;
 	}
 
 	if (!name_matches)
